@@ -237,6 +237,11 @@ class Ctx:
                 if somes:
                     blocks = [bid for bid, st in self._agg_blocks(c, "Some")]
                     ok = all(any(strip(cd)[0] == "discr" and mentions(cd, lambda z: z[0] == "call" and z[1].endswith("Fragment::as_arc")) and tk == 1 for cd, tk, sw in guards(prog, c, bid)) for bid in blocks) and bool(blocks)
+            if not ok:
+                # the loop form: every push of an index in right_angle_arcs itself is control-dependent on as_arc() being Some
+                pushes = [(bid, t) for bid, t in prog.calls(ra[0]) if Program.callee_name(t).endswith("Vec::<T, A>::push")]
+                ok = bool(pushes) and all(any(strip(cd)[0] == "discr" and mentions(cd, lambda z: z[0] == "call" and z[1].endswith("Fragment::as_arc")) and tk in (1, ("not", (0,)))
+                                              for cd, tk, sw in guards(prog, ra[0], bid)) for bid, t in pushes)
             if idx_from and ok:
                 return True, "I4 variant by selector", "the index comes from right_angle_arcs, whose filter keeps an index only when frag.as_arc() is Some"
             return False, "", "as_arc().expect: index from right_angle_arcs=%s, filter on as_arc()=%s" % (idx_from, ok)
@@ -368,7 +373,10 @@ class Ctx:
                         return False
         if q.endswith("right_angle_arcs"):
             r = [strip(x) for x in Expr(prog, q).returns()]
-            ok = ok and len(r) == 1 and mentions(r[0], lambda z: z[0] == "call" and z[1].endswith("Iterator::enumerate")) and mentions(r[0], lambda z: z[0] == "call" and z[1].endswith("filter_map"))
+            chain_form = len(r) == 1 and mentions(r[0], lambda z: z[0] == "call" and z[1].endswith("Iterator::enumerate")) and mentions(r[0], lambda z: z[0] == "call" and z[1].endswith("filter_map"))
+            # or a `for (index, frag) in fragments.iter().enumerate()` loop pushing `index` (verified above for every push)
+            loop_form = any(Program.callee_name(t).endswith("Vec::<T, A>::push") for _, t in prog.calls(q))
+            ok = ok and (chain_form or loop_form)
         return ok
 
     # ------------------------------------------------------------------ I2
